@@ -254,3 +254,36 @@ Print Assumptions C06_composite_history_in_domain.
 Theorem C06_composite_history_not_in_single_tx_domain : ~ hist_dom empty_db ex_ops.
 Proof. exact composite_history_not_in_old_domain. Qed.
 Print Assumptions C06_composite_history_not_in_single_tx_domain.
+
+(* ---- the capstone in its textbook form (Proofs/AbstractSpecProofs.v): EVERY history of the public API in the domain, as a client observes it (the rendered result of every call, errors and calls on a closed handle included), is a run of the small abstract specification S = a_step over (abstract database, closed flag), and the final store refines the final abstract state. S mentions no store, key, transaction, plan or index content. ---- *)
+From Clover Require Import HistoryProofs CompositeSpec CompositeProofs AbstractSpecProofs.
+Theorem C06_step_refines_abstract_spec : forall db h o,
+  wf_db db -> Rdb' db h -> (closed h = false -> op_dom_all db o) ->
+  exists db', wf_db db' /\ Rdb' db' (snd (step h o)) /\
+    a_step o (mkA db (closed h)) (fst (step h o)) (mkA db' (closed (snd (step h o)))).
+Proof. exact step_refines_spec. Qed.
+Print Assumptions C06_step_refines_abstract_spec.
+
+Theorem C06_history_refines_abstract_spec : forall ops,
+  hist_dom_all empty_db ops ->
+  exists a, a_run a_init ops (fst (run_ops empty_db ops)) a /\
+    wf_db (a_db a) /\ R (a_db a) (durable (snd (run_ops empty_db ops))) /\
+    a_closed a = closed (snd (run_ops empty_db ops)).
+Proof. exact history_refines_spec. Qed.
+Print Assumptions C06_history_refines_abstract_spec.
+
+Theorem C06_spec_writes_deterministic : forall o a t1 a1 t2 a2, det_op o = true ->
+  a_step o a t1 a1 -> a_step o a t2 a2 -> t1 = t2 /\ a1 = a2.
+Proof. exact a_step_writes_deterministic. Qed.
+Print Assumptions C06_spec_writes_deterministic.
+
+Theorem C06_spec_reads_keep_state : forall o a t a', read_op o = true -> a_step o a t a' -> a' = a.
+Proof. exact a_step_reads_keep_state. Qed.
+Print Assumptions C06_spec_reads_keep_state.
+
+Theorem C06_spec_example_history :
+  exists a, a_run a_init sx_ops (fst (run_ops empty_db sx_ops)) a /\
+    wf_db (a_db a) /\ R (a_db a) (durable (snd (run_ops empty_db sx_ops))) /\
+    a_closed a = closed (snd (run_ops empty_db sx_ops)).
+Proof. exact sx_refines_spec. Qed.
+Print Assumptions C06_spec_example_history.
